@@ -9,7 +9,7 @@ return what the real clock returns.
 import time as _time
 
 _real = {}
-state = {'active': False, 'offset': 0.0, 'base': 0.0}
+state = {'active': False, 'offset': 0.0, 'base': 0.0, 'tick': 0.0}
 FLOAT = ('time', 'monotonic', 'perf_counter', 'process_time')
 NS = ('time_ns', 'monotonic_ns', 'perf_counter_ns')
 
@@ -19,6 +19,12 @@ def _make(real, ns):
         if state['active']:
             state['offset'] += 3600.0
             return real() + (int((state['offset'] + state['base']) * 1e9) if ns else state['offset'] + state['base'])
+        if state['tick']:
+            # a coarse timer (Windows' 15.6 ms GetTickCount64 behind time.monotonic, a virtualised TSC ...): readings are
+            # multiples of the tick, so two calls a few microseconds apart read the same value
+            t = real() + (int(state['base'] * 1e9) if ns else state['base'])
+            q = int(state['tick'] * 1e9) if ns else state['tick']
+            return (t // q) * q
         if state['base']:
             return real() + (int(state['base'] * 1e9) if ns else state['base'])
         return real()
@@ -40,6 +46,21 @@ def advance(seconds):
     """The process was not scheduled for a while (or the machine slept): from now on every clock of the time module reads
     `seconds` later than it would have.  Monotonic clocks stay monotonic; nothing waits."""
     state['base'] += seconds
+
+
+class coarse:
+    """with clock.coarse(0.0156): every clock of the time module has that resolution."""
+    def __init__(self, tick=0.015625):
+        self.tick = tick
+
+    def __enter__(self):
+        self.prev = state['tick']
+        state['tick'] = self.tick
+        return self
+
+    def __exit__(self, *exc):
+        state['tick'] = self.prev
+        return False
 
 
 def installed():
